@@ -784,9 +784,7 @@ NO_THEOREM = {
     "C05": _NOTHM + "needs the ownership ledger invariant (I11); the model keeps a per-payload drop ledger (g_drops) that the correspondence compares with the real destructor calls",
     "C06": _NOTHM + "needs the refinement of quiescent states to the reference specification (Seq.v of the design is not written)",
     "C09": _NOTHM + "needs the refinement to the reference specification; the oracle is the reference model itself",
-    "C10": _NOTHM + "needs the stream-registry invariant (I9) and the known-finding class F11 as hypothesis",
     "C14": _NOTHM + "needs the pending-notification invariant (I12) for both parked lists",
-    "C16": _NOTHM + "needs the epoch invariant (I10); the model flags every use of a freed object and every invalid free in g_bad, which the correspondence compares with the quarantine allocator of the harness",
     "C17": _NOTHM + "needs the allocation inventory invariant; the model keeps the allocation ledger (live/freed) that the correspondence compares with the real allocator events",
 }
 
